@@ -17,23 +17,24 @@ import (
 )
 
 type cfg struct {
-	name     string
-	shared   Shared
-	keys     []int
-	vals     []string
-	levels   []int
-	gc       bool
-	reload   bool
-	rootOp   bool
-	depth    int
-	c11      bool  // recovery + crash oracles
-	c13      bool  // checkpoint / rollback ops and oracle
-	maxNoDup int   // depth used when the dump is unavailable
-	alt      bool  // mutate through Put / Delete instead of Update
-	faults   bool  // updates/deletes with an injected storage read error are part of the alphabet
-	proofOp  bool  // GetBlockProof on the live trie is an event (only while nothing is pending)
-	gcFault  bool  // "DeleteNodes while the storage write fails" is an event
-	snap     []int // collapse levels of the snapshot op (CopyRoot); enables updates/deletes through the snapshot
+	name        string
+	shared      Shared
+	keys        []int
+	vals        []string
+	levels      []int
+	gc          bool
+	reload      bool
+	rootOp      bool
+	depth       int
+	c11         bool  // recovery + crash oracles
+	c13         bool  // checkpoint / rollback ops and oracle
+	maxNoDup    int   // depth used when the dump is unavailable
+	alt         bool  // mutate through Put / Delete instead of Update
+	faults      bool  // updates/deletes with an injected storage read error are part of the alphabet
+	proofOp     bool  // GetBlockProof on the live trie is an event (only while nothing is pending)
+	gcFault     bool  // "DeleteNodes while the storage write fails" is an event
+	anyRollback bool  // rollback is also tried with nothing committed since the checkpoint and with uncommitted changes on top
+	snap        []int // collapse levels of the snapshot op (CopyRoot); enables updates/deletes through the snapshot
 }
 
 func (c cfg) ops() []Op {
@@ -173,6 +174,11 @@ func runCfg(rep *rt.Report, c cfg, deadline time.Time, classify func(w *World, l
 			case 'P':
 				return !pending && commits >= 1 && !chk
 			default:
+				if c.anyRollback {
+					// also: nothing committed since the checkpoint (only uncommitted changes, or none), and uncommitted
+					// changes on top of the one commit
+					return chk && !rolled && (since == 0 || (since == 1 && gcAfter <= 1))
+				}
 				return chk && since == 1 && !pending && !rolled && gcAfter <= 1 // at most one intervening GC pass
 			}
 		},
